@@ -14,6 +14,7 @@ import traceback
 
 VERIF = os.path.dirname(os.path.dirname(os.path.abspath(__file__)))
 REPO = os.path.abspath(os.environ.get("VERIF_REPO", "/repo"))
+OUT = os.path.abspath(os.environ.get("VERIF_OUT", VERIF))     # evidence/ and replays/ go here (self-validation points it at a scratch dir)
 SEED = int(os.environ.get("VERIF_SEED", "0") or 0)
 NPROC = int(os.environ.get("VERIF_NPROC", "16"))
 
@@ -222,7 +223,7 @@ class Report:
     def finish(self):
         findings = load_findings()
         viol, known, undec, eng = [], {}, [], []
-        replay_dir = os.path.join(VERIF, "replays", self.prop)
+        replay_dir = os.path.join(OUT, "replays", self.prop)
         if os.path.isdir(replay_dir) and not self.partial:
             shutil.rmtree(replay_dir, ignore_errors=True)     # replays belong to one run
         for r in self.results:
@@ -245,7 +246,7 @@ class Report:
             os.makedirs(replay_dir, exist_ok=True)
         for r in viol[:50]:
             path = os.path.join("replays", self.prop, safe_name(r["name"]) + ".json")
-            with open(os.path.join(VERIF, path), "w") as fh:
+            with open(os.path.join(OUT, path), "w") as fh:
                 json.dump(dict(property=self.prop, obligation=r["name"], **{k: v for k, v in r.items() if k != "name"}),
                           fh, indent=1, default=str)
             tail = "" if r.get("replayed") else " no-failing-input-found"
@@ -310,8 +311,8 @@ class Report:
         cov.update({k: v for k, v in self.extra.items() if k != "exhaustive"})
         ev = dict(property_id=self.prop, tier=self.tier, seed=SEED, level=self.level, coverage=cov,
                   assumptions=self.assumptions, wall_s=round(time.time() - self.t0, 2), violations=len(viol))
-        os.makedirs(os.path.join(VERIF, "evidence"), exist_ok=True)
-        path = os.path.join(VERIF, "evidence", f"{self.prop}.json")
+        os.makedirs(os.path.join(OUT, "evidence"), exist_ok=True)
+        path = os.path.join(OUT, "evidence", f"{self.prop}.json")
         try:
             import jsonschema
             with open("/root/.vp/EVIDENCE.schema.json") as fh:
